@@ -102,7 +102,10 @@ def run(c):
             k += 1
             tag = "cmd%d" % k
             arg = "x" * pad + ch * (5000 // len(ch.encode()))
-            steps.append({"op": "spawn", "name": tag, "exe": exe_src, "args": ["600", arg]})
+            if k % 2 == 0:
+                arg = arg[:len(arg) // 4]      # also shorter command lines (cuts at smaller offsets)
+            # `sh -c 'sleep 600; :' name <arg>`: the shell stays alive with the argument in its command line
+            steps.append({"op": "spawn", "name": tag, "exe": shutil.which("sh"), "args": ["-c", "sleep 40; :", "caller-" + tag, arg]})
             steps.append({"op": "sleep", "ms": 30})
             steps.append({"op": "mark", "tag": "begin:" + tag})
             steps.append({"op": "connect", "conn": tag, "attr": {"uid": 1, "admin": 0, "dip": "168.63.129.16", "dport": 80, "helper": tag}})
@@ -159,6 +162,12 @@ def run(c):
     ev, d, out = rig.run_rig({"steps": steps, "status_task": {"interval_ms": 50, "dir": status_dir}, "event_logger": True,
                               "drain_ms": 300}, "c13_rig", timeout=600)
     tasks_ok = any(e["e"] == "Failed" and e.get("source") == "status.json" and e.get("found") for e in ev)
+    # anti-vacuity: the callers' command lines must really have been resolved by the agent
+    snap = next((e for e in ev if e["e"] == "Failed" and e.get("source") == "getter"), {})
+    resolved = sum(1 for x in (snap.get("failed") or []) if "caller-cmd" in (x.get("processCmdLine") or ""))
+    c.extra["caller_cmdlines_resolved"] = resolved
+    if resolved < 6 and not any(e["e"] == "Panic" for e in ev):
+        raise util.ToolError("only %d of 12 caller command lines were resolved by the agent (helper processes died?)" % resolved)
     window, cur = {}, None
     resp = {e["id"]: e for e in ev if e["e"] == "Response"}
     own = {e["tag"]: e for e in ev if e["e"] == "OwnCallDone"}
